@@ -183,6 +183,15 @@ async def byte_case(ctx, version: str | None, chunks: list[bytes], eof: bool, vi
             if not eof:
                 w.write(b"1;255;0;0;17;2.0\n1;0;0;0;6;t\n" + PROBE.encode())
             await w.drain()
+            if eof == "reset":
+                # the connection fails (RST) after the bytes - also in the middle of an unterminated, over-long line
+                import socket as _socket
+                import struct as _struct
+
+                await asyncio.sleep(0.05)
+                w.get_extra_info("socket").setsockopt(_socket.SOL_SOCKET, _socket.SO_LINGER, _struct.pack("ii", 1, 0))
+                w.transport.abort()
+                return
             w.write_eof()
             await _r.read()
             w.close()
@@ -214,7 +223,9 @@ async def byte_case(ctx, version: str | None, chunks: list[bytes], eof: bool, vi
         transport.writer = NullWriter()  # reactions (version queries ...) must not fail for lack of a peer
         for chunk in chunks:
             reader.feed_data(chunk)
-        if eof:
+        if eof == "reset":
+            reader.set_exception(ConnectionResetError(104, "Connection reset by peer"))
+        elif eof:
             reader.feed_eof()
         else:
             reader.feed_data(b"1;255;0;0;17;2.0\n1;0;0;0;6;t\n" + PROBE.encode())
@@ -246,7 +257,7 @@ async def byte_case(ctx, version: str | None, chunks: list[bytes], eof: bool, vi
 
             if isinstance(exc, TransportError):
                 active_reader = getattr(transport, "reader", None) or reader
-                if active_reader.at_eof() or "LimitOverrun" in repr(exc.__cause__):
+                if active_reader.at_eof() or active_reader.exception() is not None or "LimitOverrun" in repr(exc.__cause__):
                     stalled += 1
                     if stalled > 2:
                         break
@@ -596,6 +607,42 @@ def mutation_during_pending_write_case(ctx, version: str, trigger: str, mutation
                                                             f"{info.get('raised_in')}", case)
 
 
+async def run_of_lines_case(ctx, version: str | None, line: str, count: int, extra: dict) -> None:
+    """`count` identical lines of a kind that yields nothing (blank, log, garbage, unsupported) are ALREADY waiting when the
+    application asks for the next message - a gateway that floods, a reconnect after hours - then a node presents itself and
+    the probe arrives: only library errors, and the probe is yielded."""
+    from ..harness import ScriptEnd, exc_info, is_library_error, new_gateway
+
+    case = {"kind": "run-of-lines", "version": version, "line": line, "count": count, "config_extra": extra}
+    gateway, transport = new_gateway(version)
+    transport.lines.extend([line] * count + ["1;255;0;0;17;2.0\n", "1;0;0;0;6;t\n", PROBE])
+    seen_probe = False
+    errors = 0
+    for _ in range(count + 8):
+        iterator = gateway.listen()
+        try:
+            message = await iterator.__anext__()
+            if getattr(message, "payload", None) == "probe":
+                seen_probe = True
+                break
+        except ScriptEnd:
+            break
+        except Exception as exc:  # noqa: BLE001
+            errors += 1
+            if not is_library_error(exc):
+                info = exc_info(exc)
+                ctx.violation("foreign-exception-" + info["class"], f"{count} x {line!r} waiting, then listen() raised "
+                                                                    f"{info['class']}({exc!s:.60}) in {info.get('raised_in')}", case)
+                return
+        finally:
+            await iterator.aclose()
+    ctx.case(("run-of-lines", version, line, count, repr(sorted(extra.items()))), nontrivial=True, sample=case)
+    ctx.clause("run-of-identical-lines")
+    if not seen_probe:
+        ctx.violation("probe-not-processed-normally-after-error", f"after {count} x {line!r} the presentation and the probe line "
+                                                                  f"were not yielded ({errors} errors on the way)", case)
+
+
 def concurrent_cases(ctx) -> None:
     """Listener flushing a sleep buffer while application tasks call send(): every interleaving at the
     Transport.write suspension points (Director, vf.sched) - the exception class escaping listen()."""
@@ -643,6 +690,11 @@ def run_case(ctx, case: dict) -> None:
     elif kind == "bytes":
         arun(byte_case(ctx, case["version"], [bytes.fromhex(c) for c in case["chunks"]], case["eof"],
                        case.get("via_tcp", False)))
+    elif kind == "run-of-lines":
+        from .. import harness as _h
+
+        with _h.options(case.get("config_extra")):
+            arun(run_of_lines_case(ctx, case["version"], case["line"], case["count"], case.get("config_extra") or {}))
     elif kind == "tcp-gateway":
         arun(tcp_gateway_case(ctx, case["version"], case["lines"], [(i, f) for i, f in case["sends"]]))
     elif kind == "mqtt":
@@ -695,6 +747,17 @@ def run(ctx) -> None:
                             arun(interrupted_step_case(ctx, version, trigger, "cancel", "completes"))
             finally:
                 _harness.CONFIG_EXTRA.clear()
+        from .. import codedict as _codedict
+
+        counts = sorted(_codedict.thresholds([1100, ctx.pick(3500, 12000)], low=50, cap=ctx.pick(5000, 20000)))
+        index = 0
+        for extra in [{}, *_harness.unknown_options()]:
+            for line in ("\n", "\r\n", " \n", "0;255;3;0;9;log text\n", "garbage\n", "1;255;3;0;99;x\n", "\x00\n"):
+                for count in counts:
+                    index += 1
+                    if ctx.mine(index):
+                        with _harness.options(extra):
+                            arun(run_of_lines_case(ctx, [None, *VERSIONS][index % 6], line, count, extra))
         texts = ["Grüße 21.5°C", "日本語", "😀", "a;b", " x ", "plain", "\x00", "ß" * 300]
         for i in range(ctx.pick(40, 800) // ctx.shard_count + 1):
             version = VERSIONS[i % 5]
@@ -711,6 +774,15 @@ def run(ctx) -> None:
             for eof in (True, False):
                 if ctx.mine():
                     arun(byte_case(ctx, VERSIONS[i % 5], chunks, eof))
+        # the connection FAILS (reset, device error) instead of ending - after complete lines, inside a short line, inside an
+        # unterminated run longer than the reader's limit: whatever the transport was doing with the bytes, a library error
+        resets = [[b"1;2;1;0;0;5\n"], [b"1;2;1;0;0;5"], [b"x" * 70000], [b"1;0;1;0;0;5\n", b"y" * 200000], [b"z" * 65536],
+                  [b"w" * 65537], [b"q" * 70000 + b"\n", b"1;2;1"], [b"\xff" * 66000]]
+        for i, chunks in enumerate(resets):
+            for via_tcp in (False, True):
+                if ctx.mine():
+                    ctx.clause("stream-fails-instead-of-ending")
+                    arun(byte_case(ctx, VERSIONS[i % 5], chunks, "reset", via_tcp))
         for i in range(ctx.pick(300, 40000) // ctx.shard_count):
             lines = [random_bytes(rng, rng.randint(0, 30)).replace(b"\n", b"") + b"\n" for _ in range(rng.randint(1, 6))]
             data = b"".join(lines)
